@@ -50,3 +50,33 @@ silent(P, "rx-generator-coefficient-respelled",
              "        coeffs = [-1 / 2]\n        return qp.Hamiltonian(coeffs, [PauliX(self.wires)])")])
 silent(P, "sx-matrix-respelled",
        [(NP, "    _matrix = 0.5 * np.array([[1 + 1j, 1 - 1j], [1 - 1j, 1 + 1j]])", "    _matrix = np.array([[1 + 1j, 1 - 1j], [1 - 1j, 1 + 1j]]) / 2")])
+
+# ---- R-C08-frozen --------------------------------------------------------------------------------
+FZ = "R-C08-frozen"
+_STORE = "        for op in group:\n            commutation_map[op] = group\n"
+# independent seeded change C08/patch1: `|=` on a value stored by reference merges the Y group into PAULIX_GROUP
+fire(P, "map-values-merged-in-place",
+     (IC, _STORE, "        for op in group:\n            if op in commutation_map:\n                commutation_map[op] |= group\n"
+                  "            else:\n                commutation_map[op] = group\n"),
+     FZ, "commutation_map[op] |= group")
+fire(P, "map-values-updated-in-place",
+     (IC, _STORE, "        for op in group:\n            if op in commutation_map:\n                commutation_map[op].update(group)\n"
+                  "            else:\n                commutation_map[op] = group\n"),
+     FZ, ".update()")
+fire(P, "group-table-extended-inside-function",
+     (IC, "    commutation_map = {}\n    for group in [", '    commutation_map = {}\n    PAULIZ_GROUP.add("RX")\n    for group in ['),
+     FZ, "PAULIZ_GROUP")
+fire(P, "loop-alias-augmented",
+     (IC, _STORE, "        if \"Hadamard\" in group:\n            group |= IDENTITIES\n        for op in group:\n            commutation_map[op] = group\n"),
+     FZ, "group |= IDENTITIES")
+fire(P, "lookup-result-mutated-in-inner-function",
+     (IC, "        return op_name1 in commutation_map.get(op_name2, {})",
+          "        partners = commutation_map.get(op_name2, set())\n        partners.add(op_name2)\n        return op_name1 in partners"),
+     FZ, "commutes_inner")
+silent(P, "map-values-merged-into-new-set",
+       [(IC, _STORE, "        for op in group:\n            commutation_map[op] = commutation_map.get(op, frozenset()) | group\n")])
+silent(P, "groups-copied-before-in-place-merge",
+       [(IC, _STORE, "        group = set(group)\n        for op in group:\n            if op in commutation_map:\n                commutation_map[op] |= group\n"
+                     "            else:\n                commutation_map[op] = group\n")])
+silent(P, "unrelated-local-set-updated-from-a-group",
+       [(IC, "    commutation_map = {}\n", "    commutation_map = {}\n    seen_names = set()\n    seen_names.update(PAULIX_GROUP)\n")])
